@@ -1010,7 +1010,8 @@ def pattern_net(rng, idx=0, pattern=None, variant=None):
 
         return netgen_ext.build(rng, idx, pattern, variant)
     if pattern == "shared_consts":
-        return shared_consts_net(rng, idx)
+        # pattern sweep: variants 0..11 walk through the axes of part 2, later ones draw the axis (from all of them)
+        return shared_consts_net(rng, idx, axis=SHARED_AXES_EXT[variant] if variant is not None and variant < len(SHARED_AXES_EXT) else None)
     dtype = rng.choice(["int8", "int8", "uint8"])
     b = B(rng, f"pat{idx}_{pattern}", dtype)
     b.net.desc.append(f"pattern={pattern} dtype={dtype}")
@@ -1205,10 +1206,15 @@ def pattern_net(rng, idx=0, pattern=None, variant=None):
 
 SHARED_AXES = ["same", "bias", "ofm_scale", "ifm_scale", "ifm_size", "stride", "stride_first", "stride_ge4", "dilation",
                "tconv", "ifm_bits", "bias_only"]
+# part 2 (harness/netgen_shared.py, imported lazily: that module imports this one): every rewrite that re-lays weights, with
+# users of the shared filter that differ in the parameter the rewrite reads
+SHARED_AXES_EXT = ["padding", "stride_ge4_same_vs_valid", "stride_ge4_ifm_width", "kernel_larger_than_ifm", "dilation_hw", "groups",
+                   "dw_mult", "dw_params", "dw_vs_conv", "fc_ifm_shape", "conv1x1_fc", "tconv_params"]
+SHARED_AXES += SHARED_AXES_EXT
 
 
 def shared_consts_net(rng, idx=0, axis=None, n_ops=None, kernel=None, oc=None, ic=None, hw=None, dtype=None,
-                      per_channel=None, extra_axis=None):
+                      per_channel=None, extra_axis=None, **ext):
     """`axis` (one of SHARED_AXES) names the single respect in which the consumers of the shared filter differ:
 
     same          nothing (pure reuse)                       bias        each operator has its own bias tensor
@@ -1223,6 +1229,10 @@ def shared_consts_net(rng, idx=0, axis=None, n_ops=None, kernel=None, oc=None, i
     ifm_bits      int8 and int16 feature maps on one int8 filter
     bias_only     different filters, one bias tensor"""
     axis = axis or rng.choice(SHARED_AXES)
+    if axis in SHARED_AXES_EXT:
+        import netgen_shared
+
+        return netgen_shared.build(rng, idx, axis, n_ops=n_ops, dtype=dtype, per_channel=per_channel, kernel=kernel, oc=oc, ic=ic, hw=hw, **ext)
     dtype = dtype or ("int8" if axis in ("ifm_bits", "tconv") else rng.choice(["int8", "int8", "int8", "uint8", "int16"]))
     b = B(rng, f"pat{idx}_shared_consts", dtype)
     n_ops = n_ops or rng.choice([2, 2, 2, 3, 4])
